@@ -566,3 +566,46 @@ Proof.
   pose proof (cluster_quiescent_converges n (ops ++ pulls) i nd') as H. cbv zeta in H.
   unfold U. rewrite <- Hl. apply H; try assumption; rewrite Hl; assumption.
 Qed.
+
+(* ---------- no value from nowhere, at the level of what a node SHOWS ---------- *)
+(* the value a row shows after merging Q (in any order, any records) was carried by a record of Q *)
+Lemma shown_value_was_merged Q : forall s c,
+  stL Q = Some s -> rw_col s = Some c -> exists r, In r Q /\ r_val r = c_val c.
+Proof.
+  induction Q as [|x Q IH] using rev_ind; intros s c Hs Hc; [discriminate|].
+  rewrite stL_snoc in Hs.
+  destruct (merge_value_origin (stL Q) x s c Hs Hc) as [Hv|[s0 [c0 [Hs0 [Hc0 Hv]]]]].
+  - exists x. split; [apply in_or_app; right; left; reflexivity|symmetry; exact Hv].
+  - destruct (IH s0 c0 Hs0 Hc0) as [r [Hr Hrv]]. exists r. split; [apply in_or_app; left; exact Hr|congruence].
+Qed.
+
+Lemma table_in d k v : In (k, v) (table d) -> exists s, In (k, s) d /\ Z.odd (rw_cl s) = true /\
+  v = match rw_col s with Some c => Some (c_val c) | None => None end.
+Proof.
+  unfold table. intros H. apply in_flat_map in H. destruct H as [[k' s] [Hin H]]. cbn [fst snd] in H.
+  destruct (Z.odd (rw_cl s)) eqn:E; [|destruct H]. destruct H as [H|[]]. inversion H; subst. exists s. auto.
+Qed.
+
+
+Lemma in_sorted_dget : forall (d : db) k s, asorted d -> In (k, s) d -> dget k d = Some s.
+Proof.
+  induction d as [|[k0 s0] t IH]; intros k s Hs Hin; [destruct Hin|].
+  cbn [asorted] in Hs. destruct Hs as [Hb Hs]. cbn [dget]. destruct Hin as [Hin|Hin].
+  - inversion Hin; subst. rewrite Z.eqb_refl. reflexivity.
+  - specialize (Hb k s Hin). destruct (k =? k0) eqn:E; [apply Z.eqb_eq in E; lia|]. apply IH; assumption.
+Qed.
+
+Theorem cluster_shown_values_were_acknowledged n ops i nd k v :
+  nth_error (c_nodes (crun n ops)) i = Some nd -> In (k, Some v) (table (n_db nd)) ->
+  exists r, In r (all_recs (c_log (crun n ops))) /\ r_row r = k /\ r_val r = v.
+Proof.
+  intros Hnd Hin.
+  destruct (cluster_merged_is_acknowledged n ops i nd Hnd) as [Hdb Hsub].
+  apply table_in in Hin. destruct Hin as [s [Hks [_ Hv]]].
+  destruct (rw_col s) as [c|] eqn:Ec; [|discriminate]. inversion Hv; subst v.
+  assert (Hget : dget k (n_db nd) = Some s).
+  { apply in_sorted_dget; [|exact Hks]. rewrite Hdb. apply merge_all_sorted. exact I. }
+  rewrite Hdb, merge_all_get in Hget. cbn [dget] in Hget.
+  destruct (shown_value_was_merged (on_row k (n_merged nd)) s c Hget Ec) as [r [Hr Hrv]].
+  apply on_row_in in Hr. exists r. split; [apply Hsub, Hr|]. split; [apply Hr|exact Hrv].
+Qed.
